@@ -97,6 +97,8 @@ void profile_cfg_more(const std::string &prof, uint64_t seed, RunCfg &c, Rng &r)
     c.timeout_ms = 50 + (int)r.below(450);
     c.maxtimeout_ms = r.chance(0.7) ? -1 : 500 + (int)r.below(2000);
     if (c.flags < 0) c.flags = ARES_FLAG_EDNS;
+    // "slow machine": in some runs the clock also moves a little at scheduling points although a thread could run
+    if (r.chance(prof == "C07B" ? 0.4 : 0.25)) { c.knobs["sched_stall_permille"] = 10 + (int64_t)r.below(90); c.knobs["sched_stall_max_us"] = r.chance(0.5) ? 1500 : 20000; }
     if (prof == "C07B") {
       if (r.chance(0.7)) c.flags |= ARES_FLAG_STAYOPEN;
       c.flags &= ~ARES_FLAG_USEVC;
@@ -183,6 +185,8 @@ void profile_cfg_more(const std::string &prof, uint64_t seed, RunCfg &c, Rng &r)
     if (r.chance(0.3)) c.local_dev = "eth0";
     if (r.chance(0.2)) c.local_ip4 = 0xC0000250;
     c.sock_create_cb = r.chance(0.2) ? 1 : 0; c.sock_config_cb = r.chance(0.2) ? 1 : 0;
+    // TCP-only channels with fast open and deferred writes have their own allocation sites
+    if (c.flags >= 0 && r.chance(0.3)) { c.flags |= ARES_FLAG_USEVC; c.tfo = r.chance(0.7); c.pending_write_cb = r.chance(0.6); if (r.chance(0.5)) c.flags |= ARES_FLAG_STAYOPEN; }
   } else if (prof == "C07") {
     c.allow_cancel_in_cb = 0;
     c.beh_w = {45, 4, 2, 0, 3, 0, 5, 35, 4, 1, 1, 0, 1, 0, 0};
@@ -620,14 +624,16 @@ static void c03_rich_request(Run &run, const Step &s) {
   exp.flags = rd ? dnsref::F_RD : 0;
   ares_dns_record_query_add(rec, zone.c_str(), (ares_dns_rec_type_t)rq.qtype, ARES_CLASS_IN);
   { dnsref::Question q; q.name = dnsref::name_from_text(zone); q.type = (uint16_t)rq.qtype; q.klass = 1; exp.qd.push_back(q); }
-  int nrr = 1 + (int)r.below(r.chance(0.08) ? 1400 : (r.chance(0.15) ? 300 : 12));
+  int nrr = 1 + (int)r.below(r.chance(0.12) ? 1400 : (r.chance(0.15) ? 300 : 12));
   bool ok = true;
   for (int i = 0; i < nrr && ok; i++) {
     ares_dns_section_t sect = r.chance(0.6) ? ARES_SECTION_AUTHORITY : ARES_SECTION_ADDITIONAL;
     static std::string prev_owner;
     std::string owner = (r.chance(0.5) ? "h" + std::to_string(r.below(6)) + "." : std::string("")) + zone;
-    if (r.chance(0.3)) owner = "u" + std::to_string(i) + "." + zone;          // a name that first appears here ...
-    else if (i > 0 && r.chance(0.3) && !prev_owner.empty()) owner = prev_owner;   // ... and is referred to again by the next record
+    // (large messages: more fresh names and back-references, so that names first written beyond offset 16383 get referred to)
+    double p_new = nrr > 400 ? 0.45 : 0.3, p_again = nrr > 400 ? 0.6 : 0.3;
+    if (r.chance(p_new)) owner = "u" + std::to_string(i) + "." + zone;          // a name that first appears here ...
+    else if (i > 0 && r.chance(p_again) && !prev_owner.empty()) owner = prev_owner;   // ... and is referred to again by the next record
     prev_owner = owner;
     dnsref::RR e; e.name = dnsref::name_from_text(owner); e.klass = 1; e.ttl = (uint32_t)r.below(100000);
     ares_dns_rr_t *rr = nullptr;
